@@ -69,9 +69,11 @@ func doWalk(prop string, c *KeyCase) (*walk, *Violation) {
 	down := map[uint16]bool{}
 	axisRest := map[uint16]bool{}
 	axisInfo := map[uint16]AxisDef{}
-	for _, a := range c.D.Mappings[0].Axes {
-		axisInfo[a.Code] = a
-		axisRest[a.Code] = true
+	for _, m := range c.D.Mappings {
+		for _, a := range m.Axes {
+			axisInfo[a.Code] = a
+			axisRest[a.Code] = true
+		}
 	}
 	for i, s := range c.Steps {
 		ws := walkStep{Step: s, Res: w.Run.Steps[i], Pre: w.Model.ModelState, HeldNotesPre: w.Model.HeldNoteKeys()}
